@@ -25,11 +25,10 @@ def targetOK (t : Str) : Bool :=
   else !NodeExports.hasScheme t
 
 /-- a pattern match ("*" substitution) on which both sides agree: plain characters, no empty segment, only
-literal spellings, and the FIRST segment is not ".", ".." or "node_modules" (esbuild does not look at it) -/
+literal spellings of the forbidden segments (a literal one, in any position, is rejected by both sides) -/
 def subOK (pm : Str) : Bool :=
   plainStr pm &&
-  ((NodeExports.splitBy NodeExports.isSep pm).all fun seg => !seg.isEmpty && canonSeg seg) &&
-  !badSegment ((NodeExports.splitBy NodeExports.isSep pm).headD [])
+  ((NodeExports.splitBy NodeExports.isSep pm).all fun seg => !seg.isEmpty && canonSeg seg)
 
 mutual
 /-- every string target is `targetOK`; every object is a pure condition object in esbuild's eyes (no key
